@@ -200,6 +200,26 @@ def run_case(sim, weighted, ops, conv):
     return obs, bad, probes, pres
 
 
+def selection_law_part(run, pid, sim, rng, n, per=None):
+    """the selection law inside a weighted candidate set, judged on the class itself with the finite-map specification oracle
+    of this module (no Coq model involved): used by the checks of the simulators whose jump law rests on _ListDict_
+    (C15: Gillespie_complex_contagion re-rates present candidates with insert; C01/C02/C03 likewise) so that a change to
+    _ListDict_ that biases the choice is a failing input of THEIR property too."""
+    worst = None; ran = 0
+    for i in range(n):
+        ops = gen_random(rng, rng.randint(2, 14 if i % 3 else 40), True)
+        obs, bad, probes, pres = run_case(sim, True, ops, (lambda q: q) if i % 2 else (lambda q: float(q)))
+        ran += 1
+        if bad and (worst is None or len(ops) < worst[0]):
+            worst = (len(ops), bad, {'weighted': True, 'ops': [[o[0], o[1]] + ([str(o[2])] if len(o) > 2 else []) for o in ops]})
+    if worst:
+        n_, what, rp = worst
+        run.violation('%s/_ListDict_/selection-law' % pid, 'the weighted candidate structure the simulator draws from violates the selection law (probability weight/sum of current weights): ' + what,
+                      dict(rp, kind='listdict', what=what, listdict=True))
+    if per is not None:
+        per['_ListDict_ selection-law histories'] = {'histories': ran, 'failing': 0 if not worst else 1}
+
+
 def model_view(mo):
     """parse the model's output: list of per-op states then probe answers"""
     parts = [p.strip() for p in mo.split('|')]
